@@ -42,6 +42,8 @@ def coerce(cls: Type[T], data: Any) -> T:
         else:
             raise bad_type(data, cls)
     elif cls in (int, float):
+        if isinstance(data, bool):
+            raise bad_type(data, cls)
         try:
             return cls(data)  # type: ignore
         except (ValueError, TypeError, OverflowError):
